@@ -6,6 +6,7 @@ From SP Require Import Bytes Params Msgpack Crypto Errors Packets Chunker Rand S
      SignProofs EncryptProofs GateProofs.
 From SP Require Import GoLang GoAst GoAstProofs.
 From Coq Require String.
+Import String.StringSyntax.
 Import ListNotations.
 
 (* ---- receivers: a successful header phase implies format name "saltpack", a version the
